@@ -311,6 +311,37 @@ def _mk_set_chx(**s):
 
 P_SET_CHX = {"w": I(0, 3), "i0": SMALL, "f0": B, "c0": I(0, 0x7FF), "o0": BYTE, "n": I(0, 1), "he": B, "i1": I(0, 1)}
 
+# several long-form (>= 31) tags of the same class inside one value, same number in primitive and constructed form
+SEQ_HITAGS = T("SEQ", comps=[("a", INT.tagged(("I", "C", 40)), "req", None), ("b", INT.tagged(("I", "C", 1000)), "opt", None),
+                             ("c", OCTS.tagged(("E", "C", 31)), "opt", None), ("d", BOOL.tagged(("I", "A", 31)), "opt", None),
+                             ("e", T("SEQ", comps=[("x", INT.tagged(("I", "C", 41)), "req", None)]).tagged(("I", "C", 41)), "opt", None)],
+               name="SEQ{a [40]I INT,b [1000]I INT?,c [31]E OCTS?,d [A31]I BOOL?,e [41]I SEQ{x [41]I INT}?}")
+SEQ_HITAGS_E = T("SEQ", comps=[("a", INT.tagged(("E", "C", 31)), "req", None), ("b", INT.tagged(("E", "C", 32)), "req", None),
+                               ("c", OCTS.tagged(("E", "C", 200)), "opt", None)], name="SEQ{a [31]E INT,b [32]E INT,c [200]E OCTS?}")
+
+
+def _mk_seq_hitags(**s):
+    av = {"a": s["i0"]}
+    if s["hb"]:
+        av["b"] = s["i1"]
+    if s["hc"]:
+        av["c"] = bytes([s["o0"]][: s["n"]])
+    if s["hd"]:
+        av["d"] = s["f0"]
+    if s["he"]:
+        av["e"] = {"x": s["i1"]}
+    return av
+
+
+def _mk_seq_hitags_e(**s):
+    av = {"a": s["i0"], "b": s["i1"]}
+    if s["hc"]:
+        av["c"] = bytes([s["o0"]][: s["n"]])
+    return av
+
+
+P_SEQ_HITAGS = {"i0": SMALL, "i1": I(0, 1), "hb": B, "hc": B, "hd": B, "he": B, "f0": B, "o0": BYTE, "n": I(0, 1)}
+
 # OPTIONAL constructed members: "absent" and "present but empty" are different abstract values
 SEQ_OPTC = T("SEQ", comps=[("a", INT, "req", None),
                            ("i", T("SEQ", comps=[("x", INT, "opt", None)]), "opt", None),
@@ -351,6 +382,9 @@ def constructed():
     C.append(Entry("seqof_choice", T("SEQOF", elem=CH), dict(P_CHOICE, k=I(0, 2)), lambda **s: [_mk_choice(**s), ("x", 7)][: s["k"]], ["constructed", "list", "nested", "choice"]))
     C.append(Entry("seq_any", SEQ_ANY, P_SEQ_ANY, _mk_seq_any, ["constructed", "record", "any"]))
     C.append(Entry("seq_any.E", SEQ_ANY_TAGGED, dict(P_SEQ_ANY, hv=B), _mk_seq_any_tagged, ["constructed", "record", "any"]))
+    C.append(Entry("seq_hitags", SEQ_HITAGS, P_SEQ_HITAGS, _mk_seq_hitags, ["constructed", "record", "tagged_members"], shard=("hb", "he")))
+    C.append(Entry("seq_hitags.E", SEQ_HITAGS_E, {"i0": SMALL, "i1": I(0, 1), "hc": B, "o0": BYTE, "n": I(0, 1)}, _mk_seq_hitags_e,
+                   ["constructed", "record", "tagged_members", "has_explicit"]))
     C.append(Entry("set_chx", SET_CHX, P_SET_CHX, _mk_set_chx, ["constructed", "record", "set", "choice", "has_explicit"], shard=("w",)))
     C.append(Entry("seq_optc", SEQ_OPTC, P_SEQ_OPTC, _mk_seq_optc, ["constructed", "record", "nested"], shard=("hi", "hl")))
     C.append(Entry("seqof_empty_elem", T("SEQOF", elem=T("SEQOF", elem=NULL)), {"k": I(0, 2), "k2": I(0, 2)}, lambda **s: [[None] * s["k2"], []][: s["k"]], ["constructed", "list", "nested", "univ"]))
